@@ -175,6 +175,21 @@ class World:
 WORLD = None
 
 
+class _LeaveSpy:
+    """The result queue as a worker sees it; marks the worker as leaving when it announces its own exit."""
+
+    def __init__(self, q, proc):
+        self.__dict__["_q"] = q; self.__dict__["_proc"] = proc
+
+    def put(self, obj, *a, **k):
+        if isinstance(obj, int) and not isinstance(obj, bool):
+            self._proc.leaving = True
+        return self._q.put(obj, *a, **k)
+
+    def __getattr__(self, name):
+        return getattr(self._q, name)
+
+
 class SimProcess:
     def __init__(self, target=None, args=(), kwargs=None, env=None, name=None, group=None, daemon=None):
         w = WORLD
@@ -198,6 +213,9 @@ class SimProcess:
                     WORLD.stats["spawn_with_closed_queue"] = WORLD.stats.get("spawn_with_closed_queue", 0) + 1
                     raise OSError("handle is closed")
         self.alive = True; self.started = True
+        self.leaving = False
+        # (a worker that leaves on its idle timeout announces its pid on the result queue, then waits for the hand-shake)
+        self.args = tuple(_LeaveSpy(a, self) if k == 1 and hasattr(a, "put") else a for k, a in enumerate(self.args or ()))
         g = dict(pe.__dict__)
         shim_os = types.SimpleNamespace(environ=os.environ, getpid=lambda: self.pid)
         g.update(os=shim_os, time=lambda: 1.0e9 + s.now, _python_exit=lambda: None, _CURRENT_DEPTH=0,
